@@ -154,6 +154,34 @@ def partition_scenarios(m, scratch, rep, rng, tier):
                 break
         gc.collect()
         shutil.rmtree(root, ignore_errors=True)
+    # a partition stored under an OVERRIDE key, read back, and handed on unchanged by another function (no override there): the
+    # second function's result is content-addressed like any other, and shares its object with an equal partition built afresh
+    for si in range(2 if tier == "quick" else 12):
+        root = os.path.join(scratch, "c07-relay-%d" % si)
+        shutil.rmtree(root, ignore_errors=True)
+        data = os.path.join(root, "data")
+        members = [["k1", {"k": "int", "v": 7000 + si}], ["k2", {"k": "str", "v": "relay-%d" % si}]]
+        inner = {"id": 41000 + si, "ret": {"k": "part", "v": members}, "override": "ov/relay%d" % si}
+        fresh = {"id": 41500 + si, "ret": {"k": "part", "v": members}}
+        meta = {"inner": inner, "relay": "nrelay(inner)", "fresh": fresh}
+        try:
+            fnlib.set_env(m, root, {"fc": (FilesystemStorageBackend(path=data), None)})
+            fnmod.n0(inner)
+            fnlib.set_env(m, root, {"fc": (FilesystemStorageBackend(path=data), None)})
+            rspec = {"id": 41900 + si, "inner": inner}
+            fnmod.nrelay(rspec)
+            fnmod.n1(fresh)
+            k_relay = fnmod.nrelay.memento(rspec).content_key.key
+            k_fresh = fnmod.n1.memento(fresh).content_key.key
+            n += 1
+            if not k_relay.startswith("c/"):
+                rep.violation("C07:result-without-override-not-content-addressed", "a partition handed on unchanged by another function (no key override) is recorded under %r" % k_relay, meta)
+            elif k_relay != k_fresh:
+                rep.violation("C07:equal-results-do-not-share-object", "an equal partition built afresh is stored under %r, the handed-on one under %r" % (k_fresh, k_relay), meta)
+        except Exception as e:
+            rep.violation("C07:partition-call-raised", "%s: %s" % (type(e).__name__, str(e)[:150]), meta)
+        gc.collect()
+        shutil.rmtree(root, ignore_errors=True)
     return n
 
 
